@@ -1,5 +1,5 @@
 Require Import Verif.Model.C03.
 Require Extraction.
 Require Import ExtrOcamlBasic.
-Definition run := run_C03.
+Definition run := run_C03i.
 Extraction "C03_model.ml" run.
